@@ -103,7 +103,59 @@ def report(hits, func):
     print('\n'.join(out[:20]))
 
 
+def py_pass(ids):
+    """--py: line coverage of the pure-Python implementation (BTrees/_base.py etc.) under the quick checks, on
+    the normal release build"""
+    import glob
+    d = os.path.join(VERIF, '.build', 'pycov')
+    shutil.rmtree(d, ignore_errors=True)
+    os.makedirs(d)
+    env = dict(os.environ, VERIF_PYCOV=d)
+    for i in ids:
+        p = subprocess.run([os.path.join(VERIF, 'check'), i, 'quick'], cwd=VERIF, env=env,
+                           stdout=subprocess.PIPE, stderr=subprocess.STDOUT, text=True)
+        print('%s rc=%d %s' % (i, p.returncode, p.stdout.strip().splitlines()[-1][:150] if p.stdout.strip() else ''))
+        sys.stdout.flush()
+    hit = collections.defaultdict(set)
+    src = {}
+    for f in glob.glob(os.path.join(d, '*.json')):
+        for fn, lines in json.load(open(f)).items():
+            hit[os.path.basename(fn)].update(lines)
+            src[os.path.basename(fn)] = fn
+    out = []
+    for name in sorted(hit):
+        code = compile(open(src[name]).read(), src[name], 'exec')
+        execl = {}
+
+        def walk(co, qual):
+            for _, _, ln in co.co_lines():
+                if ln:
+                    execl.setdefault(ln, qual)
+            for c in co.co_consts:
+                if hasattr(c, 'co_lines'):
+                    walk(c, (qual + '.' if qual else '') + c.co_name)
+        walk(code, '')
+        miss = sorted(l for l in execl if l not in hit[name])
+        out.append('%-20s %5d executable lines, %5d executed (%.1f%%)' % (name, len(execl), len(execl) - len(miss),
+                                                                          100.0 * (len(execl) - len(miss)) / max(len(execl), 1)))
+        byf = collections.OrderedDict()
+        for l in miss:
+            byf.setdefault(execl[l], []).append(l)
+        for f, ls in byf.items():
+            out.append('    %s: %s' % (f, ' '.join(map(str, ls))))
+    with open(os.path.join(VERIF, 'coverage', 'python_impl.txt'), 'w') as f:
+        f.write('\n'.join(out) + '\n')
+    print('\n'.join(o for o in out if not o.startswith('    ')))
+    shutil.rmtree(d, ignore_errors=True)
+
+
 def main():
+    if '--py' in sys.argv:
+        sys.argv.remove('--py')
+        ids = [a.upper() for a in sys.argv[1:]] or \
+            [c['property_id'] for c in json.load(open(os.path.join(VERIF, 'MANIFEST.json')))['checks']]
+        os.makedirs(os.path.join(VERIF, 'coverage'), exist_ok=True)
+        return py_pass(ids)
     ids = [a.upper() for a in sys.argv[1:]]
     if not ids:
         ids = [c['property_id'] for c in json.load(open(os.path.join(VERIF, 'MANIFEST.json')))['checks']]
